@@ -69,6 +69,19 @@ fn check_seq(c: &SeqCase, obs: &mut Obs) -> Verdict {
     if let Err(m) = judge_ops(&ops, &c.old, c.old_r(), &c.new, c.new_r()) {
         return Verdict::Fail(format!("{} mode {} k {:?}: {}", alg_name(c.alg), c.mode, k, m));
     }
+    if k.is_none() {
+        // the deadline-taking twins called without a deadline are the same functions
+        let twins = guard(|| {
+            let a = similar::capture_diff_deadline(alg_of(c.alg), &c.old[..], c.old_r(), &c.new[..], c.new_r(), None);
+            let b = shift_ops(&similar::capture_diff_slices_deadline(alg_of(c.alg), c.old_slice(), c.new_slice(), None), c.or.0, c.nr.0);
+            (a, b)
+        });
+        match twins {
+            Ok((a, b)) if a == ops && b == ops => {}
+            Ok((a, b)) => return Verdict::Fail(format!("{}: capture_diff_deadline(None) {:?} / capture_diff_slices_deadline(None) {:?} differ from the capture without deadline {:?}", alg_name(c.alg), a, b, ops)),
+            Err(p) => return Verdict::Fail(format!("capture_diff_deadline(None): {}", p)),
+        }
+    }
     let changes = ops.iter().filter(|o| !matches!(o, DiffOp::Equal { .. })).count();
     obs.nontrivial = ops.len() >= 2 && changes >= 1;
     obs.class(alg_name(c.alg));
@@ -123,11 +136,13 @@ fn check_text(c: &TextCase, obs: &mut Obs) -> Verdict {
         obs.class("text: [u8]");
         guard(|| {
             let d = diff_bytes(&cfg, c.tok, &c.old.0, &c.new.0);
+            exercise(&d, c.opt);
             judge_text(&d, same, obs)
         })
     } else {
         guard(|| {
             let d = diff_str(&cfg, c.tok, c.old.as_str().unwrap(), c.new.as_str().unwrap());
+            exercise(&d, c.opt);
             judge_text(&d, same, obs)
         })
     };
